@@ -20,6 +20,12 @@ var uiProgs = []uiProg{
 		{Base: 0x1000, Words: []uint32{prog.Addi(1, 1, 1), prog.Sb(1, 2, 0), prog.Lbu(3, 2, 1), prog.Bne(1, 3, -12)}},
 		{Base: 0x2000, Words: []uint32{prog.Ecall}},
 	}, 0x1004},
+	// blocks of 2, 1 and 2 instructions: equal-sized outer blocks around a different one
+	{"sym-blocks", []prog.Seg{{Base: 0x1000, Words: []uint32{
+		prog.Addi(5, 0, 1), prog.Jal(0, 8),
+		prog.Jal(0, -8),
+		prog.Addi(6, 0, 2), prog.Jal(0, -16),
+	}}}, 0x1000},
 }
 
 func progByName(n string) uiProg {
